@@ -25,7 +25,9 @@ PROPS = {
     },
     "C02": packet_prop("`deliver_at_most_once`: invariant over all op histories of the N-chain world (callback log vs receipt / clean point), plus the acceptance lemma for live packets; correspondence on replay-heavy packet histories; oracles count accepted receives per key."),
     "C03": packet_prop("ack authenticity (`AckOk`), written-once / non-empty (`WriteAckOk`), commitment deleted on ack, recorded ack = application's ack, `ack_processed_at_most_once` over all histories (hypothesis: no chain holds a light client of itself); correspondence with forged / replayed acks; oracles check commitment-before and ack-at-prover on the real stores."),
-    "C09": packet_prop("`send_seq_invariant` over all histories (sequences handed out are exactly 1..nextSend-1 in order), exact write-set of a successful send, failing send / transfer unchanged; correspondence incl. failing sends; oracles on next-sequence / commitment / event."),
+    "C09": (lambda d: (d["streams"].extend([{"name": "nft", "test": "TestStreamNft", "cases": 6, "ops": 40, "thorough_scale": 12},
+                                            {"name": "mt", "test": "TestStreamMt", "cases": 6, "ops": 50, "thorough_scale": 12}]), d)[1])(
+        packet_prop("`send_seq_invariant` over all histories (sequences handed out are exactly 1..nextSend-1 in order), exact write-set of a successful send, failing send / transfer unchanged; correspondence incl. failing sends (packet layer) and the two transfer applications' sends (nft / mt streams: refused sends to chains without a client, all-or-nothing oracle `transfer-accepted-but-no-packet-was-sent`); oracles on next-sequence / commitment / event.")),
     "C10": packet_prop("accept-iff conditions for CleanPacket / RecvCleanPacket, exact delete set, `cleanpoint_monotone` and `refused_for_good` over all histories; correspondence with cleans on source / relay / destination in all orders; oracles on monotonicity and refusal."),
     "C12": {"level": "proof", "streams": [{"name": "routing", "test": "TestStreamRouting", "cases": 4, "ops": 600, "thorough_scale": 20}],
             "assumptions": ["Go regexp / strings.Split behave as documented (the rule-syntax recogniser is validated against the real RulePattern by the stream)"],
